@@ -105,6 +105,53 @@ func elemIndex(v ssa.Value, baseIs func(ssa.Value) bool) ssa.Value {
 }
 
 func runC17(w *World, r *Report) {
+	// ---- shared: a streamable-only tool's mid-stream failure is not taken for the end of its stream
+	r.Rule("C17.eof-identity", "the drains used by the tools node recognise end-of-stream by identity with io.EOF (shared with C13 / C04)", 1)
+	eofIdentityCheck(w, r, "C17.eof-identity", "compose")
+	// ---- the inline call runs while its siblings run
+	r.Rule("C17.inline-after-spawn", "parallelRunToolCall spawns every sibling before it runs the first call inline (no call may have to wait for call 0)", 1)
+	{
+		prtc := w.Fn("compose", "parallelRunToolCall")
+		var inline []ssa.Instruction
+		var spawns []ssa.Instruction
+		instrs(prtc, func(in ssa.Instruction) {
+			switch x := in.(type) {
+			case *ssa.Go:
+				spawns = append(spawns, x)
+			case *ssa.Call:
+				// the dynamic call of the `run` parameter on the caller's goroutine, when there are siblings
+				if x.Call.IsInvoke() {
+					return
+				}
+				isParam := false
+				if _, ok := x.Call.Value.(*ssa.Parameter); ok {
+					isParam = true
+				}
+				if u, ok := x.Call.Value.(*ssa.UnOp); ok {
+					if al, ok := u.X.(*ssa.Alloc); ok {
+						for _, ref := range *al.Referrers() {
+							if st, ok := ref.(*ssa.Store); ok && st.Addr == ssa.Value(al) {
+								if _, ok := st.Val.(*ssa.Parameter); ok {
+									isParam = true
+								}
+							}
+						}
+					}
+				}
+				if isParam {
+					inline = append(inline, x)
+				}
+			}
+		})
+		if len(spawns) == 0 || len(inline) == 0 {
+			undecidedf("C17.inline-after-spawn: spawn / inline call of parallelRunToolCall not found")
+		}
+		for i, c := range inline {
+			late, _ := pathQuery{fn: prtc, from: c, goal: func(in ssa.Instruction) bool { _, ok := in.(*ssa.Go); return ok }}.exists()
+			r.Check(!late, "C17.inline-after-spawn", fmt.Sprintf("parallelRunToolCall: inline call #%d is not followed by a spawn", i+1), c.Pos(), "all goroutines are started before the inline call", "a sibling call is only started after the inline first call has finished: tool calls that wait for each other's progress dead-lock (until a context deadline), and no call can finish before call 0")
+		}
+	}
+
 	// ---- visits-all: every tool call gets a task, a run and an answer
 	r.Rule("C17.visits-all", "the loops over tool calls / tasks in the tools node are left only when exhausted or with an error", 5)
 	ruleLoopsTotal(w, r, "C17.visits-all", []*ssa.Function{
@@ -595,4 +642,39 @@ func isLenOfVia(v ssa.Value, pred func(ssa.Value) bool) bool {
 		}
 	}
 	return n > 0
+}
+
+// toolStreamConverterTotal: every convert literal handed to StreamReaderWithConvert in ToolsNode.Stream returns a nil
+// error on every path and builds the ToolMessage on every path.
+func toolStreamConverterTotal(w *World, r *Report, rule string) {
+	stream := w.Fn("compose", "ToolsNode.Stream")
+	toolMsg := w.Fn("schema", "ToolMessage")
+	n := 0
+	for _, lit := range stream.AnonFuncs {
+		if len(callsTo(lit, toolMsg)) == 0 && lit.Signature.Results().Len() != 2 {
+			continue
+		}
+		if lit.Signature.Params().Len() != 1 {
+			continue
+		}
+		n++
+		bad := ""
+		instrs(lit, func(in ssa.Instruction) {
+			ret, ok := in.(*ssa.Return)
+			if !ok {
+				return
+			}
+			if !isNilConst(ret.Results[1]) {
+				bad = "a chunk can be skipped / turned into an error"
+				return
+			}
+			if skip, _ := (pathQuery{fn: lit, from: lit.Blocks[0].Instrs[0], goal: func(x ssa.Instruction) bool { return x == ssa.Instruction(ret) }, avoid: func(x ssa.Instruction) bool { return isCallTo(x, toolMsg) }}).exists(); skip {
+				bad = "a return is reachable without building the ToolMessage"
+			}
+		})
+		r.Check(bad == "", rule, fmt.Sprintf("ToolsNode.Stream converter #%d is total", n), lit.Pos(), "every chunk becomes a frame with the call's ToolMessage", bad+": a tool whose whole output is empty gets no answer in the streamed form (the next model call sees a nil message in its slot, or the stream is empty) while Generate/Invoke answer it")
+	}
+	if n == 0 {
+		undecidedf("%s: converter literal of ToolsNode.Stream not found", rule)
+	}
 }
